@@ -27,7 +27,10 @@ Definition xcase_model_ok (c : xcase) : bool :=
       let h := written_error_headers (x_cfg c) k in
       (o_status o =? status_of k) && no_upstream o &&
       forallb (fun n => vals_eqb n h (o_hdr o)) [challenge_header; error_header; b "Content-Type"]
-  | Allow => o_from_peer o && (1 <=? o_reached o) && (o_status o =? 200)
+  | Allow =>
+      if c_mitm (x_cfg c) && is_connect (x_req c)
+      then (o_status o =? 200) && no_upstream o          (* handleMITM: 200, nothing dialled yet *)
+      else o_from_peer o && (1 <=? o_reached o) && (o_status o =? 200)
   end.
 
 (* ---- the property, on the observation ---- *)
@@ -44,13 +47,15 @@ Definition refusal_ok (cfg : config) (e : env) (q : req) (o : obs) : bool :=
           security_controls
   && challenge_ok o && no_upstream o.
 
-Definition forwarded_ok (o : obs) : bool := o_from_peer o && (1 <=? o_reached o) && (o_status o =? 200).
+Definition forwarded_ok (cfg : config) (q : req) (o : obs) : bool :=
+  if c_mitm cfg && is_connect q then (o_status o =? 200)   (* the tunnel is accepted; its requests are judged one by one *)
+  else o_from_peer o && (1 <=? o_reached o) && (o_status o =? 200).
 
 Definition xcase_prop_ok (c : xcase) : bool :=
   let cfg := x_cfg c in let e := x_env c in let q := x_req c in let o := x_obs c in
   if existsb (must_fail cfg e q) security_controls then refusal_ok cfg e q o
-  else if forallb (must_pass cfg e q) security_controls then forwarded_ok o
-  else refusal_ok cfg e q o || forwarded_ok o.
+  else if forallb (must_pass cfg e q) security_controls then forwarded_ok cfg q o
+  else refusal_ok cfg e q o || forwarded_ok cfg q o.
 
 (* indices (from 0) of the cases on which f fails *)
 Fixpoint bad_from {A} (f : A -> bool) (i : N) (l : list A) : list N :=
@@ -96,5 +101,9 @@ Definition hcase_model_ok (c : hcase) : bool := str_eqb (url_hostname (h_in c)) 
 (* ruleset.TimeFrameEntry.Match *)
 Record tcase := { t_entry : tf_entry; t_day : N; t_hour : N; t_out : bool }.
 Definition tcase_model_ok (c : tcase) : bool := Bool.eqb (tf_match (t_entry c) (t_day c) (t_hour c)) (t_out c).
+(* oracle: the documented meaning, "12-14 matches 12:00 until 13:59" on the entry's weekday *)
+Definition tcase_prop_ok (c : tcase) : bool :=
+  Bool.eqb ((tf_day (t_entry c) =? t_day c) && (tf_start (t_entry c) <=? t_hour c) && (t_hour c <? tf_end (t_entry c)))
+           (t_out c).
 
 Definition always_ok {A} (_ : A) : bool := true.
